@@ -69,6 +69,7 @@ type c19Model struct {
 	users     map[string]*c19MUser
 	sessions  map[string]*c19MSession
 	services  map[string]string // name -> entity ID
+	svcSP     map[string]string // name -> which SP (metadata document) is registered under it
 	shortcuts map[string]samlidp.Shortcut
 }
 
@@ -109,7 +110,7 @@ var c19SeedHashes = map[string][]byte{}
 func c19NewWorld(c *core.Ctx) *c19World {
 	w := &c19World{c: c, store: sched.NewMapStore(), now: fx.Epoch}
 	w.wrap = sched.NewWrapper(w.store)
-	w.model = &c19Model{users: map[string]*c19MUser{}, sessions: map[string]*c19MSession{}, services: map[string]string{}, shortcuts: map[string]samlidp.Shortcut{}}
+	w.model = &c19Model{users: map[string]*c19MUser{}, sessions: map[string]*c19MSession{}, services: map[string]string{}, svcSP: map[string]string{}, shortcuts: map[string]samlidp.Shortcut{}}
 	fx.SetNow(w.now)
 	saml.RandReader = fx.NewRecReader(4242)
 	// seed users directly in the store (cheap hashes)
@@ -129,11 +130,16 @@ func c19NewWorld(c *core.Ctx) *c19World {
 	w.restart(false)
 	// service providers
 	ib, _ := xml.Marshal(w.srv.IDP.Metadata())
-	for i, n := range []string{"spa", "spb", "spc"} {
+	// spa2 is spa after a move: the same entity ID, another assertion consumer URL
+	for i, n := range []string{"spa", "spb", "spc", "spa2"} {
 		var idpMD saml.EntityDescriptor
 		_ = xml.Unmarshal(ib, &idpMD)
 		kp := fx.K("sp_rsa1024")
-		sp := &saml.ServiceProvider{Key: kp.Key, MetadataURL: mustURL("https://" + n + ".example.com/saml/metadata"), AcsURL: mustURL("https://" + n + ".example.com/saml/acs"), SloURL: mustURL("https://" + n + ".example.com/saml/slo"), IDPMetadata: &idpMD}
+		host, acsPath := n, "/saml/acs"
+		if n == "spa2" {
+			host, acsPath = "spa", "/saml/acs2"
+		}
+		sp := &saml.ServiceProvider{Key: kp.Key, MetadataURL: mustURL("https://" + host + ".example.com/saml/metadata"), AcsURL: mustURL("https://" + host + ".example.com" + acsPath), SloURL: mustURL("https://" + host + ".example.com/saml/slo"), IDPMetadata: &idpMD}
 		if i == 1 {
 			sp.Certificate = kp.Cert // this one publishes an encryption key
 		}
@@ -569,6 +575,7 @@ func (w *c19World) step(act c19Action, faultAt int, faultErr error) {
 		expectStatus(rep, 204)
 		if !faulted && rep.code == 204 {
 			m.services[act.a] = sp.entity
+			m.svcSP[act.a] = sp.name
 		}
 		observe(rep, "")
 	case "delService":
@@ -577,6 +584,7 @@ func (w *c19World) step(act c19Action, faultAt int, faultErr error) {
 			expectStatus(rep, 204)
 			if !faulted {
 				delete(m.services, act.a)
+				delete(m.svcSP, act.a)
 			}
 		} else {
 			expectStatus(rep, 500)
@@ -693,9 +701,10 @@ func (w *c19World) step(act c19Action, faultAt int, faultErr error) {
 		}
 		if !faulted && !w.dead {
 			// S5: model prediction
+			// registered: this SP's metadata document (entity ID and assertion consumer URL) is what a service holds now
 			registered := false
-			for _, e := range m.services {
-				if e == sp.entity {
+			for _, n := range m.svcSP {
+				if n == sp.name {
 					registered = true
 				}
 			}
@@ -747,8 +756,9 @@ func (w *c19World) step(act c19Action, faultAt int, faultErr error) {
 		if raw, ok := snap["/shortcuts/"+act.a]; ok {
 			var ssc samlidp.Shortcut
 			if json.Unmarshal([]byte(raw), &ssc) == nil {
+				_, storedACS := storeRegistered(ssc.ServiceProviderID, snap)
 				for _, s := range w.sps {
-					if s.entity == ssc.ServiceProviderID {
+					if s.entity == ssc.ServiceProviderID && (target == nil || s.acs == storedACS) {
 						target = s
 					}
 				}
@@ -986,7 +996,7 @@ func (w *c19World) cookieFor(kind string) string {
 func c19RandomAction(c *core.Ctx, w *c19World) c19Action {
 	r := c.Rng
 	users := []string{"alice", "bob", "carol"}
-	sps := []string{"spa", "spb", "spc"}
+	sps := []string{"spa", "spb", "spc", "spa2"}
 	svcs := []string{"svc1", "svc2"}
 	cookies := []string{"live", "live", "live", "none", "forged", "older", "path-trick"}
 	switch k := r.Intn(40); {
@@ -1006,7 +1016,7 @@ func c19RandomAction(c *core.Ctx, w *c19World) c19Action {
 	case k < 9:
 		// never register one entity under two names: svc1 takes spa/spc, svc2 takes spb
 		if r.Intn(2) == 0 {
-			return c19Action{"putService", "svc1", []string{"spa", "spc"}[r.Intn(2)], 0}
+			return c19Action{"putService", "svc1", []string{"spa", "spc", "spa2", "spa"}[r.Intn(4)], 0}
 		}
 		return c19Action{"putService", "svc2", "spb", 0}
 	case k < 11:
@@ -1018,7 +1028,7 @@ func c19RandomAction(c *core.Ctx, w *c19World) c19Action {
 	case k < 19:
 		return c19Action{"login", users[r.Intn(3)], []string{"right", "right", "wrong", "empty", "other-users-password", "unknown-user", "empty-user", "previous-password", "long-prefix"}[r.Intn(9)], 0}
 	case k < 28:
-		return c19Action{"sso", sps[r.Intn(3)], cookies[r.Intn(len(cookies))], r.Intn(12)}
+		return c19Action{"sso", sps[r.Intn(4)], cookies[r.Intn(len(cookies))], r.Intn(12)}
 	case k < 32:
 		return c19Action{"shortcut", []string{"sc1", "sc1", "sc-missing"}[r.Intn(3)], cookies[r.Intn(len(cookies))], r.Intn(4)}
 	case k < 33:
@@ -1044,7 +1054,7 @@ func runC19(c *core.Ctx) {
 	}
 	// (a) exhaustive short histories over a reduced alphabet, from a prepared state (service registered, user logged in)
 	alphabet := []c19Action{
-		{"putService", "svc1", "spc", 0}, {"putService", "svc1", "spa", 0}, {"delService", "svc1", "", 0}, {"putShortcut", "sc1", "spa", 1}, {"delShortcut", "sc1", "", 0},
+		{"putService", "svc1", "spc", 0}, {"putService", "svc1", "spa", 0}, {"putService", "svc1", "spa2", 0}, {"delService", "svc1", "", 0}, {"putShortcut", "sc1", "spa", 1}, {"delShortcut", "sc1", "", 0},
 		{"login", "alice", "right", 0}, {"login", "alice", "wrong", 0}, {"sso", "spa", "live", 0}, {"sso", "spc", "live", 1}, {"sso", "spa", "none", 0}, {"shortcut", "sc1", "live", 0},
 		{"delSession", "live", "", 0}, {"clock", "", "", 2}, {"restart", "", "", 0}, {"delUser", "alice", "", 0}, {"putUser", "alice", "without-password", 7},
 	}
@@ -1064,7 +1074,7 @@ func runC19(c *core.Ctx) {
 				w.step(a, 0, nil)
 			}
 			// probe: after the history, who gets assertions?
-			for _, p := range []c19Action{{"sso", "spa", "live", 0}, {"sso", "spc", "live", 1}, {"shortcut", "sc1", "live", 1}, {"sso", "spb", "none", 0}} {
+			for _, p := range []c19Action{{"sso", "spa", "live", 0}, {"sso", "spa2", "live", 1}, {"sso", "spc", "live", 1}, {"shortcut", "sc1", "live", 1}, {"sso", "spb", "none", 0}} {
 				w.step(p, 0, nil)
 			}
 			finish(w, "exh")
